@@ -281,3 +281,21 @@ Proof.
   - unfold remove_nth. destruct i; cbn; auto.
   - cbn. auto.
 Qed.
+
+(** counting form of forward-once: in any interval of length [W], over all
+    nodes together, the calls that pass the Multicast_ check for one key are
+    at most as many as there are nodes — for every history *)
+Lemma lsum_ones {A} (f : A -> nat) l : (forall x, In x l -> (f x <= 1)%nat) -> (lsum (map f l) <= length l)%nat.
+Proof.
+  induction l as [|x t IH]; intros H; cbn; [lia|].
+  pose proof (H x (or_introl eq_refl)). assert (forall y, In y t -> (f y <= 1)%nat) by (intros; apply H; now right).
+  specialize (IH H1). lia.
+Qed.
+
+Lemma forwards_bounded_thm W mk s evs origin id (t0 : N) :
+  (lsum (map (fun n => length (filter (in_window W t0) (times sel_fwd n (true, origin, id) (snd (run W mk s evs)))))
+             (seq 0 (length (nodes s)))) <= length (nodes s))%nat.
+Proof.
+  rewrite <- (seq_length (length (nodes s)) 0) at 2. apply lsum_ones. intros n _.
+  apply (forward_once_thm W mk s evs n origin id t0).
+Qed.
